@@ -46,6 +46,7 @@ mod glyfm;
 mod varsm;
 mod layoutm;
 mod colrm;
+mod colrdag;
 mod bitmapm;
 mod textm;
 mod aatsm;
@@ -88,6 +89,7 @@ pub const GROUPS: &[(&str, fn(&mut Ctx))] = &[
     ("vars.model", varsm::run),
     ("layout.model", layoutm::run),
     ("colr.model", colrm::run),
+    ("colr.dag", colrdag::run),
     ("bitmap.model", bitmapm::run),
     ("text.model", textm::run),
     ("aats.model", aatsm::run),
